@@ -40,6 +40,7 @@ type models struct {
 	faultCount  map[string]int
 	// scheduling
 	noPreempt   int
+	onlyYield   bool
 	mapOrderAll bool
 	// memcall shadow page table
 	guard       map[*Value]*regionInfo
